@@ -30,7 +30,7 @@ type libThread struct {
 }
 
 // threadClock is switched on by workers that run one case at a time. The concurrency check (C20: 16 goroutines inside the
-// library at once under the race detector, hooks that yield) keeps the process-wide clock with its ten times larger
+// library at once under the race detector, hooks that yield) keeps the process-wide clock with a sixty times larger
 // budget: pinning its goroutines makes every yield a thread hand-off (measured: 10x slower), and with all Ps busy there
 // are no idle collector threads to distort the process clock in the first place.
 var threadClock bool
